@@ -36,18 +36,18 @@ fn per_variant<V: Variant>(r: &mut Report, ctx: &Ctx) {
     }
     r.section(
         &name,
-        "8 hash values x 3 forms (bytes, hex, hex+prefix) x every buffer length 0..=N+64 and N+{100,127,128,129,256,1000}, 4096, 65536+N x 3 sentinel fills: too small => BufferIsTooSmall and buffer untouched; otherwise Ok(N), buf[..N] == representation, buf[N..] untouched; distinct by enumeration; non-trivial = all",
-        &format!("8 x 3 x {} lengths x 3 fills", V::STRLEN + 73),
+        "8 hash values x 3 forms (bytes, hex, hex+prefix) x every buffer length 0..=N+64 and N+{100,127,128,129,256,1000}, 4096, 65536+N x 7 prior contents (3 masked constants, 4 ramps covering every byte value): too small => BufferIsTooSmall and buffer untouched; otherwise Ok(N), buf[..N] == representation, buf[N..] untouched; distinct by enumeration; non-trivial = all",
+        &format!("8 x 3 x {} lengths x 7 fills", V::STRLEN + 73),
         true,
         |s| {
             let vals = hash_values::<V>();
             let vals = &vals;
             let nl = (V::STRLEN + 73) as u64;
-            s.acc = par_for(8 * 3 * nl * 3, 128, |idx, acc| {
-                let fill = [0x00u8, 0xa5, 0xff][(idx % 3) as usize];
-                let len = ((idx / 3) % nl) as usize;
-                let form = ((idx / 3 / nl) % 3) as usize;
-                let hv = &vals[(idx / 9 / nl) as usize];
+            s.acc = par_for(8 * 3 * nl * 7, 128, |idx, acc| {
+                let fill = [0x00u8, 0xa5, 0xff, 0x21, 0x61, 0xa1, 0xe1][(idx % 7) as usize];
+                let len = ((idx / 7) % nl) as usize;
+                let form = ((idx / 7 / nl) % 3) as usize;
+                let hv = &vals[(idx / 21 / nl) as usize];
                 let n = [V::SIZE, V::STRLEN - 2, V::STRLEN][form];
                 // lengths 0..=N+64 one by one, then a few much larger buffers
                 let len = if len > n + 64 {
